@@ -132,6 +132,10 @@ fn create_next_state<C: ContentAddrStore>(
                     .insert_coin(coinid, coin_data.clone(), is_tip_906);
             }
         }
+    }
+    // Only remove the inputs once every output of the batch exists: a transaction may be listed
+    // before the transaction whose output it spends, and removing first would leave that coin unspent.
+    for tx in transactions {
         for coinid in tx.inputs.iter() {
             next_state.coins.remove_coin(*coinid, is_tip_906);
         }
